@@ -69,7 +69,12 @@ RULE = ("histories = one cell space (Moore/von Neumann grid in 1-3 dimensions, h
         "cell spaces (Moore, von Neumann, hex, network, Voronoi; different sizes; the same layer name 'elev' with different "
         "values) on ONE model with agents in each, copied through the roots model / either space / an agent / model.agents / "
         "a cell (a lone cell as root is outside the statement: counted when it raises), each copied space compared with its "
-        "own original, write-through and empty-tracking checked per space, then moves in each copy; non-trivial = a copy succeeded and >= 2 later operations changed something; distinct = "
+        "own original, write-through and empty-tracking checked per space, then moves in each copy; and an ORACLE-ONLY SCALE "
+        "stream (6 per quick run, 28 in thorough, 28 in the enumerator when something broke): a subject grid built first, then "
+        "255/256/257/300/512/600 other tiny grids built, deep-copied and pickled, then the subject copied with the full "
+        "faithfulness + detachment check (writes through both sides, moves on both sides, the original still copyable); copy "
+        "chains 100-520 long; 257-520 copies of one space; AgentSets with 1000-4097 members; grids with 256-1089 cells / up to "
+        "300 agents and 256-1089-node networks with warm neighbourhood caches; non-trivial = a copy succeeded and >= 2 later operations changed something; distinct = "
         "by SHA1 of the history; 16 corpus histories always first; enumerator = 606 scripted cases + 20 exotic + 72 multi")
 TRUSTED_BASE = [
     "Coq 8.16.1 kernel (coqc); vm_compute for the non-vacuity Examples and for evaluating run_world in the correspondence",
@@ -395,7 +400,7 @@ def _exotic_cases(rng, n):
 
 
 def gen_cases(rng, tier):
-    cases = _exotic_cases(rng, 20 if tier == "quick" else 100) + _multi_cases(rng, 24 if tier == "quick" else 120)
+    cases = _exotic_cases(rng, 20 if tier == "quick" else 100) + _multi_cases(rng, 24 if tier == "quick" else 120) + _scale_cases(rng, tier)
     n = 600 if tier == "quick" else 12000
     for i in range(n):
         if rng.random() < 0.12:
@@ -417,6 +422,8 @@ def _enumerate_exotic():
 def enumerate_cases(tier, broken=False):
     yield from _enumerate_exotic()
     yield from _enumerate_multi()
+    if broken or tier == "thorough":
+        yield from _enumerate_scale()
     yield from _enumerate_main(tier, broken)
 
 
@@ -1750,6 +1757,220 @@ def _run_multi(case):
     return {"obs": [], "failures": failures, "model": False}
 
 
+
+# ------------------------------------------------------------------ oracle-only stream: process-level SCALE
+SCALE_THRESHOLDS = (255, 256, 257, 300, 512, 600)
+
+
+def _scale_cases(rng, tier):
+    """a handful per quick run, many more in thorough; sizes cross 255/256/257/512 (registries, caches), 1000/1025/2049/4096"""
+    def one(variant, n):
+        return {"kind": "scale", "stype": "scale", "variant": variant, "n": n, "mech": rng.randrange(2), "salt": rng.randrange(1000), "ops": []}
+    if tier == "quick":
+        return [one("idle-subject", rng.choice((257, 300))), one("idle-subject", 520), one("copy-chain", 130), one("many-copies", 260),
+                one("big-agentset", rng.choice((1025, 2049))), one("big-space", rng.choice((400, 1089)))]
+    out = []
+    for n in SCALE_THRESHOLDS:
+        out += [one("idle-subject", n), one("idle-subject", n)]
+    out += [one("copy-chain", n) for n in (100, 257, 300)] + [one("many-copies", n) for n in (257, 513)]
+    out += [one("big-agentset", n) for n in (1000, 1001, 1025, 2049, 4096)] + [one("big-space", n) for n in (256, 400, 1089)]
+    return out
+
+
+def _enumerate_scale():
+    for n in SCALE_THRESHOLDS:
+        for mech in (0, 1):
+            yield {"kind": "scale", "stype": "scale", "variant": "idle-subject", "n": n, "mech": mech, "salt": n, "ops": []}
+    for variant, sizes in (("copy-chain", (257, 520)), ("many-copies", (257, 520)), ("big-agentset", (1025, 4097)), ("big-space", (400, 1089))):
+        for n in sizes:
+            for mech in (0, 1):
+                yield {"kind": "scale", "stype": "scale", "variant": variant, "n": n, "mech": mech, "salt": 5, "ops": []}
+
+
+def _scale_subject(salt, dims=(3, 2), n_agents=3):
+    import warnings
+
+    import mesa
+    from mesa.discrete_space import OrthogonalMooreGrid, OrthogonalVonNeumannGrid
+
+    X = _exotic_classes()
+    m = mesa.Model(seed=1)
+    with warnings.catch_warnings():
+        warnings.simplefilter("ignore")
+        cls = OrthogonalMooreGrid if salt % 2 else OrthogonalVonNeumannGrid
+        sp = cls(dims, torus=bool(salt % 3 == 0), capacity=2, random=m.random)
+        sp.create_property_layer("elev", default_value=1.5, dtype=float)
+        data = sp._mesa_property_layers["elev"].data
+        data += 0.25 * __import__("numpy").arange(data.size).reshape(data.shape)
+    m.grid = sp
+    cells = list(sp._cells.values())
+    for i in range(n_agents):
+        a = X["XBase" if i % 2 else "XSub"](m, i + 1)
+        a.cell = cells[(i * 7 + salt) % len(cells)] if len(cells[(i * 7 + salt) % len(cells)]._agents) < 2 else next(c for c in cells if c.is_empty)
+    return m, sp
+
+
+def _scale_check(add, m, sp, m2, sp2, when):
+    """the full faithfulness + detachment check of one copy against its source, incl. writes and moves on both sides"""
+    import pickle
+
+    def lb(x):
+        return tuple((n, l.data.tobytes()) for n, l in x._mesa_property_layers.items())
+
+    def wiring(x, who):
+        for c in x._cells.values():
+            for n, lay in x._mesa_property_layers.items():
+                v = getattr(c, n, "MISSING")
+                if isinstance(v, str) or v != lay.data[c.coordinate]:
+                    add("cell-attribute-not-own-layer", f"{when}: cell {c.coordinate} of the {who} reads {n} = {v!r} but its own layer holds {lay.data[c.coordinate]!r}")
+                    return False
+            if bool(c.empty) != bool(c.is_empty):
+                add("empty-layer-not-tracking", f"{when}: cell {c.coordinate} of the {who} has empty = {bool(c.empty)} but is_empty = {c.is_empty}")
+                return False
+        return True
+
+    d0 = _xdescribe(sp, m)
+    d2 = _xdescribe(sp2, m2)
+    for aspect in d0:
+        if d2[aspect] != d0[aspect]:
+            add(f"unfaithful-{aspect}", f"{when}: {aspect} of the copy differ from the original")
+    ids = lambda x, mm: {id(x), id(mm)} | {id(c) for c in x._cells.values()} | {id(a) for a in mm._agents} | {id(l) for l in x._mesa_property_layers.values()}  # noqa: E731
+    if ids(sp, m) & ids(sp2, m2):
+        add("not-detached-shared-object", f"{when}: the copy shares a space / cell / agent / layer object with the original")
+    if not (wiring(sp, "original") and wiring(sp2, "copy")):
+        return
+    # write through the copy: only the copy's layer moves
+    o_l, c2 = lb(sp), list(sp2._cells.values())[-1]
+    c2.elev = 77.25
+    if lb(sp) != o_l or _xdescribe(sp, m) != d0:
+        add("not-independent", f"{when}: a write through a cell attribute of the COPY changed the original")
+    if sp2._mesa_property_layers["elev"].data[c2.coordinate] != 77.25:
+        add("cell-attribute-not-own-layer", f"{when}: a write through a cell attribute of the copy did not reach the copy's own layer")
+    # write through the original: only the original's layer moves
+    c_l, c0 = lb(sp2), list(sp._cells.values())[0]
+    c0.elev = 55.5
+    if lb(sp2) != c_l:
+        add("not-independent", f"{when}: a write through a cell attribute of the ORIGINAL changed the copy")
+    if sp._mesa_property_layers["elev"].data[c0.coordinate] != 55.5:
+        add("cell-attribute-not-own-layer", f"{when}: a write through a cell attribute of the original did not reach the original's own layer")
+    # moves on both sides
+    for who, x, other, omodel in (("copy", sp2, sp, m), ("original", sp, sp2, m2)):
+        snap = _xdescribe(other, omodel)
+        ags = [a for c in x._cells.values() for a in c._agents]
+        free = [c for c in x._cells.values() if c.is_empty]
+        if ags and free:
+            ags[0].cell = free[0]
+        wiring(x, who)
+        wiring(other, "copy" if who == "original" else "original")
+        if _xdescribe(other, omodel) != snap:
+            add("not-independent", f"{when}: a move on the {who} changed the other side")
+    try:
+        pickle.dumps(sp)
+        __import__("copy").deepcopy(sp)
+    except Exception as e:  # noqa: BLE001
+        add("original-no-longer-copyable", f"{when}: copying / pickling the original afterwards raised {type(e).__name__}: {str(e)[:120]}")
+
+
+def _run_scale(case):
+    import gc
+    import warnings
+
+    failures = []
+    v, n, mech, salt = case["variant"], case["n"], case["mech"], case["salt"]
+
+    def add(key, what):
+        failures.append({"key": f"C19/scale/{key}", "op": 0, "what": f"[{v}, n={n}, {MECH[mech]}, salt={salt}] {what}"})
+
+    gc.disable()
+    try:
+        with warnings.catch_warnings():
+            warnings.simplefilter("ignore")
+            import mesa
+            from mesa.agent import AgentSet
+            from mesa.discrete_space import Network, OrthogonalMooreGrid
+
+            if v == "idle-subject":
+                # the subject is built FIRST and sits idle while n other grids are built, deep-copied and pickled
+                m, sp = _scale_subject(salt)
+                om = mesa.Model(seed=2)
+                for i in range(n):
+                    g = OrthogonalMooreGrid((1, 1) if i % 2 else (2, 2), torus=False, random=om.random)
+                    if i % 5 == 1:
+                        _xcopy(g, 0)
+                    elif i % 5 == 3:
+                        _xcopy(g, 1)
+                obj = sp if salt % 2 else m
+                cp = _xcopy(obj, mech)
+                sp2, m2 = (cp, next(a for c in cp._cells.values() for a in c._agents).model) if salt % 2 else (cp.grid, cp)
+                _scale_check(add, m, sp, m2, sp2, f"after {n} other grids were built / copied")
+            elif v == "copy-chain":
+                m, sp = _scale_subject(salt, dims=(2, 2), n_agents=2)
+                cur = m
+                for i in range(n):
+                    cur = _xcopy(cur, (mech + i) % 2)
+                _scale_check(add, m, sp, cur, cur.grid, f"the {n}-th copy of a copy")
+            elif v == "many-copies":
+                m, sp = _scale_subject(salt, dims=(2, 2), n_agents=2)
+                copies = [_xcopy(m, (mech + i) % 2) for i in range(n)]
+                d0 = _xdescribe(sp, m)
+                for i in (0, n // 2, n - 2):
+                    if _xdescribe(copies[i].grid, copies[i]) != d0:
+                        add("unfaithful-cells", f"copy {i} of {n} copies of one space differs from the original")
+                _scale_check(add, m, sp, copies[n - 1], copies[n - 1].grid, f"the last of {n} copies of one space")
+                if _xdescribe(copies[0].grid, copies[0]) != d0:
+                    add("not-independent", "operations on the original and on the last copy changed the first copy")
+                if len({id(type(next(iter(c.grid._cells.values())))) for c in copies}) != n:
+                    add("not-detached-shared-object", f"{n} copies of one grid do not have {n} distinct cell classes")
+            elif v == "big-agentset":
+                X = _exotic_classes()
+                m = mesa.Model(seed=1)
+                agents = [X["XPlain" if i % 3 else "XPlainFalsy"](m, i + 1) for i in range(n)]
+                order = agents[salt % n:] + agents[:salt % n]
+                aset = AgentSet(order, random=m.random)
+                before = [a.vid for a in aset]
+                cp = _xcopy(aset, mech)
+                keep = list(cp)
+                if [a.vid for a in keep] != before or len(cp) != n:
+                    add("unfaithful-members", f"the copy of an AgentSet with {n} members has other members or another order")
+                if [type(a).__name__ for a in keep] != [type(a).__name__ for a in order]:
+                    add("unfaithful-members", "classes of the members differ")
+                if {id(a) for a in keep} & {id(a) for a in agents} or cp.random is aset.random:
+                    add("not-detached-shared-object", "the copy shares an agent or the generator with the original")
+                if cp.random.getstate() != aset.random.getstate():
+                    add("unfaithful-generator", "generator state not carried")
+                cp.discard(keep[0])
+                keep[-1].vid = -5
+                if [a.vid for a in aset] != before:
+                    add("not-independent", "mutating the copy changed the original")
+            else:   # big-space: hundreds of cells and agents, warm neighbourhood caches
+                side = int(n ** 0.5)
+                m, sp = _scale_subject(salt, dims=(side, side), n_agents=min(300, n // 2))
+                for c in sp._cells.values():
+                    c.neighborhood
+                cp = _xcopy(m, mech)
+                _scale_check(add, m, sp, cp, cp.grid, f"a grid with {side * side} cells and {min(300, n // 2)} agents")
+                import networkx as nx
+                m3 = mesa.Model(seed=1)
+                net = Network(nx.cycle_graph(n), capacity=None, random=m3.random)
+                for c in net._cells.values():
+                    c.neighborhood
+                X = _exotic_classes()
+                for i in range(min(300, n // 2)):
+                    X["XBase"](m3, i + 1).cell = net._cells[(i * 3) % n]
+                m3.grid = net
+                cp3 = _xcopy(m3, mech)
+                if _xdescribe(cp3.grid, cp3) != _xdescribe(net, m3):
+                    add("unfaithful-cells", f"the copy of a {n}-node network with agents differs from the original")
+                why = _xnbhd_ok(cp3.grid)
+                if why:
+                    add("cached-neighborhood-stale", why)
+    except Exception as e:  # noqa: BLE001
+        add("raises", f"{type(e).__name__}: {str(e)[:200]}")
+    finally:
+        gc.enable()
+    return {"obs": [], "failures": failures, "model": False}
+
+
 def _run_aset(case):
     import copy
     import gc
@@ -1949,6 +2170,8 @@ def run_impl(case):
         return _run_exotic(case)
     if case["kind"] == "multi":
         return _run_multi(case)
+    if case["kind"] == "scale":
+        return _run_scale(case)
     if case["kind"] == "aset":
         return _run_aset(case)
     return _run_space(case)
@@ -2019,7 +2242,7 @@ def _coq_dummy():
 
 
 def coq_case(case):
-    if case["kind"] in ("exotic", "multi"):
+    if case["kind"] in ("exotic", "multi", "scale"):
         return _coq_dummy()
     ops = L.lst([_coq_wop(o) for o in case.get("_ops_for_model") or case["ops"]])
     return f"{{| wc_case := {_coq_inner_case(case)}; wc_ops := {ops} |}}"
@@ -2041,6 +2264,8 @@ def op_kinds(case):
         return [f"exotic/{case['variant']}/{MECH[case['mech']]}/{'space' if case['root'] == 0 else 'model'}"]
     if case["kind"] == "multi":
         return [f"multi/{'+'.join(case['combo'])}/{case['root']}/{MECH[case['mech']]}"]
+    if case["kind"] == "scale":
+        return [f"scale/{case['variant']}/{case['n']}/{MECH[case['mech']]}"]
     out = []
     for op in case["ops"]:
         if op[0] == "copy":
@@ -2060,7 +2285,7 @@ def _state_part(o):
 
 
 def nontrivial(case):
-    if case["kind"] in ("exotic", "multi"):
+    if case["kind"] in ("exotic", "multi", "scale"):
         return True
     obs = case.get("_obs", [])
     copied = False
